@@ -145,7 +145,7 @@ def make_job(structs, lay, outdir):
                 wl = lay["%s|%s" % (s.name, w)]
                 wrappers.append({"w": w, "flag_off": wl["flag"], "ok_kind": kind[okt], "err_kind": kind[errt],
                                  "ok_hex": sbytes if okt == "@" else J.ARM_BYTES[okt].hex(), "err_hex": sbytes if errt == "@" else J.ARM_BYTES[errt].hex()})
-        job["structs"].append({"name": s.name, "owner": s.owner, "lifetime": s.lifetime, "size": l["size"], "align": l["align"], "single_scalar": "buffer" not in fl[0],
+        job["structs"].append({"name": s.name, "owner": s.owner, "lifetime": s.lifetime, "out": s.out, "size": l["size"], "align": l["align"], "single_scalar": "buffer" not in fl[0],
                                "fields": [{"name": n, "ft": ft_json(f)} for n, f in s.fields], "cases": cases, "wrappers": wrappers})
     return job, meta
 
@@ -323,8 +323,10 @@ def judge(rep0, abi, structs, lay, meta, results, stats):
         for (vals, exp, slices), c in zip(meta[s.name], res["cases"]):
             stats["cases"] += 1
             encv = [enc_val(f, v) for (_, f), v in zip(s.fields, vals)]
-            # ---- write path
-            if "write_error" in c:
+            # ---- write path (out structs are only ever returned: nothing to write, nothing to pass)
+            if s.out:
+                pass
+            elif "write_error" in c:
                 rep.violation("C08|%s|write-throws|fields=%s|%s" % (abi, cls, re.sub(r"\d+", "N", c["write_error"])[:60]), {"struct": s.name, "fields": cls, "vals": encv, "error": c["write_error"]},
                               "_writeToArrayBuffer threw for struct {%s} with %s: %s" % (cls, encv, c["write_error"]))
             else:
@@ -355,6 +357,8 @@ def judge(rep0, abi, structs, lay, meta, results, stats):
                         rep.violation("C08|%s|read|field=%s|fields=%s" % (abi, ft.key, cls), {"struct": s.name, "fields": cls, "field": fn, "stored": e, "read_back": g},
                                       "struct {%s}: field %s stored %s read back as %s" % (cls, fn, e, g))
             # ---- flattening
+            if s.out:
+                continue
             stats["flatten"] += 1
             if "take_error" in c:
                 rep.violation("C08|%s|call-throws|fields=%s|%s" % (abi, cls, re.sub(r"\d+", "N", c["take_error"])[:60]), {"struct": s.name, "fields": cls, "vals": encv, "error": c["take_error"]},
